@@ -107,6 +107,7 @@ class Sym:
         self._cenv = {n: UNKNOWN for n in self.locals}
         self.inline = None     # optional hook: (sym, call node) -> Lin | None, inlines small pure package helpers
         self.scope = ""        # prefix of unbound local names inside an inlined helper frame
+        self.noscope: set = set()  # names shared with the calling frame (self of a helper called on self)
         self.call_values: Dict[int, Lin] = {}   # id(call node) -> value returned by a helper the path inlined
 
     @staticmethod
@@ -138,6 +139,7 @@ class Sym:
         s = Sym(self.prog, self.mod, self.env, self.locals)
         s.inline = self.inline
         s.scope = self.scope
+        s.noscope = self.noscope
         s.call_values = self.call_values
         return s
 
@@ -176,7 +178,7 @@ class Sym:
             if e.id in self.env:
                 v = self.env[e.id]
                 return v if isinstance(v, Lin) else Lin.of_term(v)
-            return Lin.of_term(("var", self.scope + e.id if e.id in self.locals else e.id))
+            return Lin.of_term(("var", self.scope + e.id if e.id in self.locals and e.id not in self.noscope else e.id))
         if isinstance(e, ast.Attribute):
             if isinstance(e.value, ast.Name):
                 k = "%s.%s" % (e.value.id, e.attr)
